@@ -440,6 +440,29 @@ func genRouteDoubledJoint(emit func(Data)) {
 	}
 }
 
+// family route-shared-tags: member ways whose tags repeat tags of the route relation (a way
+// keeps its own feature whatever the relations it belongs to are tagged with).
+func genRouteSharedTags(emit func(Data)) {
+	relTags := []Tag{{"type", "route"}, {"route", "bus"}, {"ref", "7"}, {"name", "Rennsteig"}}
+	wayTagSets := [][]Tag{{{"name", "Rennsteig"}}, {{"ref", "7"}, {"name", "Rennsteig"}}, {{"route", "bus"}}, {{"name", "Rennsteig"}, {"highway", "path"}}, {{"type", "route"}, {"route", "bus"}, {"ref", "7"}, {"name", "Rennsteig"}}}
+	for ti, wt := range wayTagSets {
+		for second := 0; second < 2; second++ {
+			for mp := 0; mp < 2; mp++ {
+				d := Data{Family: "route-shared-tags", Name: fmt.Sprintf("route-shared-tags/tags%d/second%d/meta%d", ti, second, mp)}
+				d.Ways = append(d.Ways, mkWay(1, wt, metaPat(mp, 1), 11, 12, 13))
+				var t2 []Tag
+				if second == 1 {
+					t2 = wt
+				}
+				d.Ways = append(d.Ways, mkWay(2, t2, metaPat(mp+1, 2), 13, 14))
+				d.Rels = append(d.Rels, DRel{ID: 1, Tags: relTags, Meta: metaPat(mp, 1), Members: []DMember{{Type: "way", Ref: 1}, {Type: "way", Ref: 2, Role: "forward"}}})
+				nodesFor(&d, nil, mp)
+				emit(d)
+			}
+		}
+	}
+}
+
 // family route-long: 5 (thorough: also 6) two-node ways in a chain, EVERY member
 // order. The joiner removes a matched segment from a list that it keeps in
 // two halves; with five or more members the match can sit deep in the first
@@ -859,6 +882,7 @@ func enumerate(quick bool) []Data {
 	genWay(quick, emit)
 	genRoute(quick, emit)
 	genRouteDoubledJoint(emit)
+	genRouteSharedTags(emit)
 	genRouteLong(quick, emit)
 	genRouteTopology(emit)
 	genArea(emit)
